@@ -20,7 +20,12 @@ pub fn edwards_wire(rng: &mut Prng, honest: Option<[u8; 32]>, faulty: bool, c: &
         return h.to_vec();
     }
     let t = ed::torsion();
-    match rng.below(14) {
+    match rng.below(15) {
+        14 => {
+            bump(c, "fault:enc_structured_near_p");
+            // keep drawing until the y decodes about half of the time (both outcomes are interesting)
+            near_p_structured(rng).to_vec()
+        }
         0 => {
             bump(c, "fault:enc_noncanonical_y");
             // y + p for y < 19, either sign bit
@@ -147,7 +152,14 @@ pub fn ristretto_wire(rng: &mut Prng, honest: Option<[u8; 32]>, faulty: bool, c:
         bump(c, "wire:honest");
         return h.to_vec();
     }
-    match rng.below(12) {
+    match rng.below(13) {
+        12 => {
+            bump(c, "fault:enc_structured_near_p");
+            let mut b = near_p_structured(rng);
+            b[0] &= 0xfe; // non-negative s
+            b[31] &= 0x7f;
+            b.to_vec()
+        }
         0 => {
             bump(c, "fault:ris_s_plus_p");
             // non-canonical s = s0 + p for small s0 (only values below 19 fit)
@@ -317,7 +329,11 @@ pub fn montgomery_wire(rng: &mut Prng, honest: [u8; 32], faulty: bool, c: &mut C
         return honest;
     }
     let t = ed::torsion();
-    match rng.below(11) {
+    match rng.below(12) {
+        11 => {
+            bump(c, "fault:enc_structured_near_p");
+            near_p_structured(rng)
+        }
         0 => {
             bump(c, "fault:u_small_order");
             // u of the torsion points: 0, 1, -1 and the two order-8 values
@@ -436,4 +452,61 @@ pub fn near_l_structured(rng: &mut Prng) -> [u8; 32] {
         w[3] &= (1u64 << 61) - 1;
     }
     U256(w).to_le_bytes()
+}
+
+/// Structured neighbours of the field prime: the 255-bit all-ones pattern with one or two limbs (in one of the
+/// limb layouts an implementation might use: 5x51, 10x25.5, 4x64, 8x32 bits) kept, zeroed, randomised or
+/// decremented, and the low limb moved around -19. A canonicalisation carry chain that skips a limb is only
+/// visible on such values.
+pub fn near_p_structured(rng: &mut Prng) -> [u8; 32] {
+    let mut bits = [true; 255];
+    let layout: Vec<(usize, usize)> = match rng.below(4) {
+        0 => (0..5).map(|i| (i * 51, 51)).collect(),
+        1 => {
+            let mut v = Vec::new();
+            let mut pos = 0;
+            for i in 0..10 {
+                let w = if i % 2 == 0 { 26 } else { 25 };
+                v.push((pos, w));
+                pos += w;
+            }
+            v
+        }
+        2 => (0..4).map(|i| (i * 64, if i == 3 { 63 } else { 64 })).collect(),
+        _ => (0..8).map(|i| (i * 32, if i == 7 { 31 } else { 32 })).collect(),
+    };
+    let nmod = 1 + rng.below(2);
+    for _ in 0..nmod {
+        let (pos, w) = layout[rng.below(layout.len() as u64) as usize];
+        match rng.below(4) {
+            0 => {
+                for b in bits[pos..pos + w].iter_mut() {
+                    *b = false;
+                }
+            }
+            1 => {
+                for b in bits[pos..pos + w].iter_mut() {
+                    *b = rng.coin();
+                }
+            }
+            2 => bits[pos] = false, // limb minus one
+            _ => bits[pos + w - 1] = false,
+        }
+    }
+    let mut out = [0u8; 32];
+    for (i, b) in bits.iter().enumerate() {
+        if *b {
+            out[i / 8] |= 1 << (i % 8);
+        }
+    }
+    // low limb around the -19 boundary
+    match rng.below(4) {
+        0 => out[0] = 0xed_u8.wrapping_sub(rng.below(3) as u8),
+        1 => out[0] = 0xec + rng.below(20) as u8,
+        _ => {}
+    }
+    if rng.chance(1, 4) {
+        out[31] |= 0x80;
+    }
+    out
 }
